@@ -107,6 +107,12 @@ def execute(
     else:
         raise RuntimeError("Unknown operation type %s." % operation.operation)
 
+    # Collecting the root fields coerces directive arguments and can fail, do
+    # it before the execution stage is reported as started.
+    root_fields = executor.collect_fields(
+        root_type, operation.selection_set.selections
+    )
+
     instrumentation.on_execution_start()
 
     def _on_finish(data):
@@ -120,9 +126,7 @@ def execute(
                     root_type,
                     initial_value,
                     [],
-                    executor.collect_fields(
-                        root_type, operation.selection_set.selections
-                    ),
+                    root_fields,
                 )
             ),
             _on_finish,
